@@ -28,6 +28,20 @@ Definition Atom_new (hetero : bool) (serial : Z) (id name : text) (x y z occ b :
     Some {| a_hetero := hetero; a_serial := serial; a_id := id; a_name := upper name; a_x := x; a_y := y; a_z := z;
             a_occ := occ; a_b := b; a_elem := el; a_charge := charge; a_atf := None |}
   else None.
+(* Atom::deduce_element: the element an atom with this element text and this name gets (the same steps as in Atom_new) *)
+Definition deduce_element (element name : text) : option Z :=
+  let name := trim name in
+  match element_of_symbol (trim element) with
+  | Some e => Some e
+  | None => match element_of_symbol name with
+            | Some e => Some e
+            | None => match name with
+                      | c :: _ => if existsb (Ascii.eqb c) (stext "CHNOS") then element_of_symbol [c] else None
+                      | [] => None
+                      end
+            end
+  end.
+Definition is_hydrogen (element name : text) : bool := match deduce_element element name with Some e => Z.eqb e 1 | None => false end.
 Definition norm_alt (alt : option text) : option text :=
   match alt with None => None | Some a => prepare_identifier_uppercase a end.
 Definition Conformer_new (name : text) (alt : option text) (atoms : list atom) : option conformer :=
@@ -180,7 +194,7 @@ Definition step_item (s : st) (ln : Z) (it : lexitem) : st :=
          s_last_atom := s_last_atom s; s_atom_add := s_atom_add s; s_chain_letter := s_chain_letter s; s_next_id := s_next_id s;
          s_errors := s_errors s; s_stop := s_stop s |}
   | LAtom hetero b x y z occ bf =>
-      if (discard_h && text_eqb (ab_element b) (stext "H"))%bool then s else
+      if (discard_h && is_hydrogen (ab_element b) (ab_name b))%bool then s else
       let atom_add := if (Z.eqb (ab_serial b) 0 && Z.eqb (s_last_atom s) 99999)%bool then s_atom_add s + 100000 else s_atom_add s in
       let res_add := if (Z.eqb (ab_resnum b) 0 && Z.eqb (s_last_res s) 9999)%bool then s_res_add s + 10000 else s_res_add s in
       let chain := if blank (ab_chain b) then letter_of (s_chain_letter s) else ab_chain b in
@@ -190,9 +204,10 @@ Definition step_item (s : st) (ln : Z) (it : lexitem) : st :=
                         match Residue_new 0 (ab_icode b) [] with Some _ => true | None => false end)%bool in
       match a, valid_ids with
       | Some atom, true =>
-          let key := (ab_resnum b + res_add, ab_icode b) in
+          (* residues are told apart by the insertion code in the upper-case form it is stored in *)
+          let key := (ab_resnum b + res_add, option_map upper (ab_icode b)) in
           let mk (_ : unit) :=
-            {| r_num := ab_resnum b + res_add; r_icode := norm_alt (ab_icode b);
+            {| r_num := ab_resnum b + res_add; r_icode := norm_alt (snd key);
                r_confs := match Conformer_new (ab_resname b) (ab_alt b) [atom] with Some c => [c] | None => [] end |} in
           {| s_id := s_id s; s_remarks := s_remarks s; s_cell := s_cell s; s_sym := s_sym s; s_models := s_models s; s_cur_num := s_cur_num s;
              s_cur := cm_upsert (s_cur s) chain key mk (fun r => Residue_add_atom r atom (ab_resname b) (ab_alt b));
